@@ -78,6 +78,9 @@ def get_default_qinfo(
 def odimo_mps_latency_reduction(costs):
     """Function that computes the aggregated latency of a multi-precision convolution assuming that the
     convolutions at each precision are run in parallel on different accelerators"""
+    # the layers return a (input precisions x weight precisions) matrix, or a scalar for the
+    # layers without weights
+    costs = costs.flatten()
     s_c = F.softmax(costs, dim=0)
     return torch.dot(s_c, costs)
 
